@@ -86,6 +86,9 @@ const (
 	FMultiService = "multi_service"
 	FNameShapes   = "name_shapes"
 	FSharedPath   = "shared_path_across_verbs"
+	// RSharedRenamed (probe worlds): every method that can reuses the previous path shape under
+	// another verb, with the variables named differently (/items/{id} and /items/{id_alt})
+	RSharedRenamed = "shared_path_shape_with_renamed_variables"
 	FSharedReq    = "request_message_shared_by_two_methods"
 	FTrailingSlash = "path_with_trailing_slash"
 	FQueryCard    = "query_repeated_or_optional"
@@ -643,7 +646,7 @@ func (x *g) method(s *spec.Service, name string, idx int, usedRoutes map[string]
 
 	// the same path template under another verb (GET/PUT/DELETE on /items/{id})
 	var shared *sharedPath
-	if x.has(FSharedPath) && m.HasConfig && !verbOnly && !noCfg && x.prevPath[s.Name] != nil && x.r.chance(1, 2) {
+	if (x.has(FSharedPath) || x.has(RSharedRenamed)) && m.HasConfig && !verbOnly && !noCfg && x.prevPath[s.Name] != nil && (x.has(RSharedRenamed) || x.r.chance(1, 2)) {
 		sp := x.prevPath[s.Name]
 		bpre := ""
 		if s.BasePath != nil {
@@ -663,6 +666,9 @@ func (x *g) method(s *spec.Service, name string, idx int, usedRoutes map[string]
 	nVars := 0
 	if x.has(FPathVars) && m.HasConfig && !verbOnly {
 		nVars = x.r.intn(4)
+	}
+	if x.has(RSharedRenamed) && m.HasConfig && !verbOnly && nVars == 0 {
+		nVars = 1
 	}
 	if shared != nil || x.has(FTrailingSlash) {
 		nVars = 0
@@ -715,7 +721,7 @@ func (x *g) method(s *spec.Service, name string, idx int, usedRoutes map[string]
 	if shared != nil {
 		// the same path shape under another verb; sometimes with the variables named differently
 		// (GET /items/{id} next to DELETE /items/{item_id}: one route shape, two templates)
-		rename := len(shared.vars) > 0 && x.r3.chance(1, 3)
+		rename := len(shared.vars) > 0 && (x.has(RSharedRenamed) || x.r3.chance(1, 3))
 		sp := shared.path
 		for _, v := range shared.vars {
 			cp := *v
